@@ -69,7 +69,7 @@ func currentTask() *Task {
 }
 
 // installFineHooks wires the rewritten sources' entry points to a scheduler.
-func installFineHooks(sc *Sched, on map[string]bool, count func(string)) {
+func installFineHooks(sc *Sched, on map[string]bool, held bool, count func(string)) {
 	if len(fineSiteList) == 0 {
 		verifhook.HereHook, verifhook.BeforeLockFnHook, verifhook.HeldHook = nil, nil, nil
 		return
@@ -79,8 +79,11 @@ func installFineHooks(sc *Sched, on map[string]bool, count func(string)) {
 			return
 		}
 		t := currentTask()
-		if t == nil || t.sched != sc || t.held > 0 || (t.Gen != nil && t.Gen.dead.Load()) {
+		if t == nil || t.sched != sc || (t.held > 0 && !held) || (t.Gen != nil && t.Gen.dead.Load()) {
 			return
+		}
+		if t.held > 0 {
+			count("fine.parks-holding-a-mutex")
 		}
 		count("fine.parks")
 		count("fine.parks@" + site[strings.LastIndex(site, ":")+1:])
